@@ -114,13 +114,14 @@ type ReapRec struct {
 
 // Doc is the replay document.
 type Doc struct {
-	Property string   `json:"property"`
-	Mode     string   `json:"mode"` // "history" | "rerun"
-	Runs     int      `json:"runs,omitempty"`
-	Case     Case     `json:"case"`
-	Verdict  *Verdict  `json:"verdict,omitempty"`
-	History  []TxRec   `json:"history,omitempty"`
-	Reaps    []ReapRec `json:"reaps,omitempty"`
+	Property string         `json:"property"`
+	Mode     string         `json:"mode"` // "history" | "rerun"
+	Runs     int            `json:"runs,omitempty"`
+	Case     Case           `json:"case"`
+	Verdict  *Verdict       `json:"verdict,omitempty"`
+	History  []TxRec        `json:"history,omitempty"`
+	Reaps    []ReapRec      `json:"reaps,omitempty"`
+	Seq      *drive.Program `json:"seq,omitempty"` // mode "sequential" (seq_test.go)
 }
 
 var finalTx = Tx{RO: true, Commit: true}
@@ -817,6 +818,14 @@ func TestReplay(t *testing.T) {
 	var d Doc
 	if err := json.Unmarshal(b, &d); err != nil {
 		t.Fatal(err)
+	}
+	if d.Mode == "sequential" && d.Seq != nil {
+		if mm := runSeqProgram(d.Seq); mm != nil {
+			ev.WriteReplayResult(ev.ReplayResult{File: f, Outcome: "fail", Signature: "sequential:" + mm.Signature(), Message: mm.Error()})
+			return
+		}
+		ev.WriteReplayResult(ev.ReplayResult{File: f, Outcome: "pass"})
+		return
 	}
 	runs, again := 20, 0
 	if d.Runs > 0 {
